@@ -21,8 +21,8 @@ SHARDS = {"quick": 1, "thorough": 16}
 
 @st.composite
 def cases(draw):
-    c = draw(st.one_of(gen.program_cases(n_inputs=(3, 6), max_depth=3), gen.program_cases(n_inputs=(3, 6), pool=gen.ADVERSARIAL_POOL, max_depth=2),
-                       gen.big_programs()))
+    c = draw(st.one_of(gen.program_cases(n_inputs=(3, 6), max_depth=3, tricky=True), gen.program_cases(n_inputs=(3, 6), max_depth=3),
+                       gen.program_cases(n_inputs=(3, 6), pool=gen.ADVERSARIAL_POOL, max_depth=2), gen.big_programs()))
     if draw(st.integers(0, 2)) == 0:
         # the source the user wrote: same tokens with generated whitespace / comments (CR, FF, // and /* */ included)
         c["text"] = draw(gen_text.trivia_variant(M.program_tokens(c["prog"])))[0]
@@ -134,4 +134,10 @@ def run(ctx, rec):
         if still:
             rec.known_finding("K1", "an experiment named like a global of the generated module makes the stand-alone text diverge "
                               "from the evaluator (still failing for: %s)" % ", ".join(still))
+    if ctx.shard == 0:
+        from . import c07
+
+        runner.direct_run(ctx, rec, "fixed-shapes", c07.fixed_programs(), judge, known_filter=known_filter)
+        if rec.violations:
+            return
     runner.hyp_run(ctx, rec, "programs-x-layouts", cases(), judge, ctx.n(250, 1500), known_filter=known_filter)
